@@ -425,7 +425,7 @@ def snap_debugger(dbg):
     # settings.warning_count belongs to the shared Settings object, not to the debugger state
     d.pop("swarning_count")
     d["bps"] = [int(k) for k in dbg.breakpoints.keys()]
-    d["calls"] = dbg.calls
+    d["calls"] = getattr(dbg, "calls", None)
     return d
 
 
